@@ -512,6 +512,15 @@ theorem paf_passes_independent (exp sqrt : R → R) (σ : R) (s H W k : Nat) (ed
     (List.replicate k animals).map (pafs exp sqrt Nat.cast σ s H W edges)
       = List.replicate k (pafs exp sqrt Nat.cast σ s H W edges animals) := List.map_replicate
 
+/-- **paf_stream_independent**: a stream of *different* examples (image sizes, animals) through one
+generator is the model mapped over the stream: the field of example `i` is `pafs` of example `i`
+alone — its own `H`, `W` (grid, in-image bound) and animals, nothing carried over from the
+examples before it. -/
+theorem paf_stream_independent (exp sqrt : R → R) (σ : R) (s : Nat) (edges : List (Nat × Nat))
+    (stream : List (Nat × Nat × List (List (Option (R × R))))) (i : Nat) :
+    (stream.map fun ex => pafs exp sqrt Nat.cast σ s ex.1 ex.2.1 edges ex.2.2)[i]?
+      = (stream[i]?).map fun ex => pafs exp sqrt Nat.cast σ s ex.1 ex.2.1 edges ex.2.2 := List.getElem?_map
+
 /-! ## non-vacuity -/
 
 example : 0 < weight realTransc.exp (3/2 : ℝ) (5 : ℝ) ∧ weight realTransc.exp (3/2 : ℝ) 5 ≤ 1 :=
